@@ -61,10 +61,14 @@ def weight(N, nsymbols=2):
     :return: a mask tensor
     """
 
+    if not hasattr(nsymbols, "__len__"):
+        nsymbols = [nsymbols] * N
+    assert len(nsymbols) == N
+
     cores = []
     for n in range(N):
-        core = torch.eye(2)[:, None, :].repeat(1, nsymbols, 1)
-        core[1, :, 0] = torch.arange(nsymbols)
+        core = torch.eye(2)[:, None, :].repeat(1, nsymbols[n], 1)
+        core[1, :, 0] = torch.arange(nsymbols[n])
         cores.append(core)
     cores[0] = cores[0][1:2, :, :]
     cores[-1] = cores[-1][:, :, 0:1]
